@@ -30,7 +30,7 @@ ASSUMPTIONS = [
 
 @st.composite
 def cases(draw, tier):
-    spec = draw(nets.net_spec(cls="H", max_edges=7, max_size=4, allow_empty=draw(st.integers(0, 5)) == 0, with_attrs=False))
+    spec = draw(nets.net_spec(wide_labels="mixed", cls="H", max_edges=7, max_size=4, allow_empty=draw(st.integers(0, 5)) == 0, with_attrs=False))
     dspec = draw(nets.net_spec(cls="DH", max_edges=4, with_attrs=False, allow_empty=True))
     return {"spec": spec, "dspec": dspec}
 
